@@ -274,6 +274,8 @@ AXIS_FAMILIES = {
     # designs written in metres: cells of a millimetre (areas of 1e-6 and below after refinement) and of a picometre
     'MILLI': (lambda i: F(i, 1000), lambda j: F(j, 1000)),
     'PICO': (lambda i: F(3 * i, 10 ** 12), lambda j: F(2 * j, 10 ** 12)),
+    # ... the same with decimal sizes (cells of 300.3 x 50.1 at 1e9: halving them is not exact, neighbours differ by an ulp of 1e9)
+    'FAR9D': (lambda i: F(1000000000) + F(3003 * i, 10), lambda j: F(1000000000) + F(501 * j, 10)),
     'SLVX': (lambda i: [F(0), F(1), F(128), F(256)][i], lambda j: [F(0), F(64), F(128), F(192)][j]),
     'SLVY': (lambda i: [F(0), F(64), F(128), F(192)][i], lambda j: [F(0), F(1), F(128), F(256)][j]),
 }
@@ -399,12 +401,12 @@ def shard_plan(tier):
     if tier == 'quick':
         plan = [('HALF', 3, 2, 3, True), ('DEC1', 2, 3, 2, False), ('STRX', 3, 2, 2, False), ('STRY', 2, 3, 2, False), ('P300', 3, 2, 2, False), ('B7', 3, 2, 2, False),
                 ('SLVX', 3, 3, 3, False), ('SLVY', 3, 3, 3, False), ('FAR9', 3, 2, 2, False), ('B7G', 3, 3, 3, False), ('B7D', 2, 2, 2, False),
-                ('MILLI', 2, 2, 2, False), ('PICO', 2, 2, 2, False)]
+                ('MILLI', 2, 2, 2, False), ('PICO', 2, 2, 2, False), ('FAR9D', 2, 2, 2, False)]
     else:
         # depth 2 with all 8 operations on the larger plan; depth 3 (6 operations) on the small plan marked deep=True
         plan = [('HALF', 3, 2, 3, True), ('DEC1', 3, 2, 3, True), ('DEC3', 2, 3, 3, False), ('STRX', 3, 2, 3, False), ('STRY', 2, 3, 3, False),
                 ('P300', 3, 2, 3, False), ('DEC7', 4, 1, 4, False), ('HALF', 2, 2, 2, 'deep'), ('DEC1', 2, 1, 2, 'deep'), ('B7', 3, 2, 3, False),
-                ('SLVX', 3, 3, 3, False), ('SLVY', 3, 3, 3, False), ('FAR9', 3, 2, 3, False), ('FAR9', 2, 3, 3, False), ('B7G', 3, 3, 3, False), ('B7D', 2, 2, 3, False), ('MILLI', 3, 2, 3, False), ('PICO', 2, 2, 3, False)]
+                ('SLVX', 3, 3, 3, False), ('SLVY', 3, 3, 3, False), ('FAR9', 3, 2, 3, False), ('FAR9', 2, 3, 3, False), ('B7G', 3, 3, 3, False), ('B7D', 2, 2, 3, False), ('MILLI', 3, 2, 3, False), ('PICO', 2, 2, 3, False), ('FAR9D', 3, 2, 3, False)]
     for (fam, nx, ny, kmax, rich) in plan:
         n = len(layouts(nx, ny, kmax))
         step = 4 if not (fam.startswith('SLV') or fam == 'B7G') else 48
